@@ -1193,3 +1193,110 @@ def fam_types(tier, seed):
 
 
 FAMILIES["types"] = fam_types
+
+
+# ----------------------------------------------------------------------------- F-layout / F-esc / Meta texts (C12)
+
+def fam_layout(tier, seed):
+    """grammars of the other families, spelled wildly (whitespace, comments, quotes, escapes, parentheses,
+    directive order): the parsers generated from the text must behave as the AST says"""
+    import copy
+    import layout
+    rnd = random.Random(seed * 7919 + 31)
+    out = []
+    n = 5 if tier == "quick" else 40
+    for fam in ("ops", "fields", "ws", "lr", "inc", "user", "uni", "pos"):
+        src = FAMILIES[fam](tier, seed)
+        for g in sample(rnd, src, n):
+            h = copy.deepcopy(g)
+            h.id = "lay_%04d" % len(out)
+            h.meta = dict(g.meta)
+            h.meta["shape"] = "%s:%s" % (fam, g.meta.get("shape"))
+            h.meta["text"] = layout.layout_text(g, rnd, "wild")
+            if h.meta.get("user_rs"):
+                h.meta["user_rs"] = h.meta["user_rs"]
+                # user function paths mention the grammar id of the source family: re-point them
+                h.meta["text"] = h.meta["text"].replace("g_" + g.id, "g_" + h.id)
+                for r in h.rules:
+                    for c in getattr(r, "checks", []):
+                        c["path"] = c["path"].replace("g_" + g.id, "g_" + h.id)
+                        c["name"] = c["name"].replace("g_" + g.id, "g_" + h.id)
+            h.real_extra = []
+            if tier == "quick":
+                h.maxlen = min(h.maxlen, 3)
+                h.extra = h.extra[:6]
+            out.append(h)
+    return out
+
+
+def fam_esc(tier, seed):
+    """every escape form of doc/syntax.md, at the boundaries of its value range"""
+    out = []
+    cases = [("\\n", 10), ("\\r", 13), ("\\t", 9), ("\\\\", 92), ("\\'", 39), ('\\"', 34),
+             ("\\x00", 0), ("\\x41", 0x41), ("\\x7f", 0x7F), ("\\x7F", 0x7F), ("\\x80", 0x80), ("\\xe9", 0xE9), ("\\xFF", 0xFF), ("\\xfF", 0xFF),
+             ("\\u0000", 0), ("\\u0041", 0x41), ("\\u00e9", 0xE9), ("\\u07FF", 0x7FF), ("\\u0800", 0x800), ("\\ud7ff", 0xD7FF),
+             ("\\uE000", 0xE000), ("\\uffff", 0xFFFF), ("\\u9053", 0x9053),
+             ("\\U00000041", 0x41), ("\\U0000e000", 0xE000), ("\\U00010000", 0x10000), ("\\U0001F600", 0x1F600), ("\\U0010FFFF", 0x10FFFF),
+             ("\\u{0}", 0), ("\\u{41}", 0x41), ("\\u{e9}", 0xE9), ("\\u{0000E9}", 0xE9), ("\\u{d7ff}", 0xD7FF), ("\\u{10000}", 0x10000),
+             ("\\u{10FFFF}", 0x10FFFF), ("\\u{1f600}", 0x1F600), ("\\u{A}", 10)]
+    if tier != "quick":
+        cases += [("\\x%02x" % v, v) for v in range(0, 256, 7)] + [("\\u%04X" % v, v) for v in range(0x100, 0xD800, 1777)]
+    for sp, cp in cases:
+        for form in ("lit", "str", "range", "class", "ci"):
+            if form == "ci" and cp > 127:
+                continue
+            near = [c for c in (cp, cp + 1, cp - 1, cp ^ 0x20) if 0 <= c <= 0x10FFFF and not (0xD800 <= c <= 0xDFFF)]
+            alpha = [chr(c) for c in dict.fromkeys(near)][:3] + ["x"]
+            if form == "lit":
+                body, text = Lit(None, cps=[cp]), "S = '%s';" % sp
+            elif form == "str":
+                body, text = Lit(None, cps=[120, cp, 120]), 'S = "x%sx";' % sp
+            elif form == "ci":
+                body, text = Lit(None, ci=True, cps=[cp, 120]), "S = i'%sx';" % sp
+            elif form == "range":
+                hi = min(cp + 1, 0x10FFFF) if not (0xD800 <= cp + 1 <= 0xDFFF) else cp
+                body, text = Range(cp, hi), "S = '%s'..'%s';" % (sp, "\\u{%x}" % hi)
+            else:
+                body, text = Call("C", "c"), "S = c:C;\n@char\nC = '%s' | 'x';" % sp
+            if '"' in sp and form == "str":
+                text = "S = 'x%sx';" % sp
+            rules = [Rule("S", body, export=True, no_skip_ws=True, position=True)]
+            if form == "class":
+                rules.append(CharRule("C", [("lit", cp), ("lit", "x")]))
+            g = Grammar("esc_%04d" % len(out), rules, root="S", maxlen=2 if form != "str" else 3,
+                        meta={"shape": "%s %s" % (form, sp), "text": "@export\n@no_skip_ws\n@position\n" + text + "\n"})
+            g.alpha = list(dict.fromkeys(alpha))
+            if form == "str":
+                g.extra = [["x", chr(cp), "x"]]
+                g.maxlen = 1
+            out.append(g)
+    return out
+
+
+FAMILIES["layout"] = fam_layout
+FAMILIES["esc"] = fam_esc
+
+
+def meta_sources():
+    """small grammars that together use every element of the documented syntax (for the Meta run of C12)"""
+    P = "crate::m::"
+    chk = lambda n: {"o": "unknown", "path": P + n, "name": P + n}  # noqa: E731
+    return [
+        Grammar("m0", [Rule("S", Seq(Lit("a"), Call("B", "x"), Call("C", "y", boxed=True), Call("D")), export=True, position=True),
+                       Rule("B", Choice(Call("C", "@"), Seq(Lit("("), Call("D", "@", boxed=True), Lit(")"))), no_skip_ws=True),
+                       Rule("C", Lit("c"), string=True, memoize=True), Rule("D", Eoi(), leftrec=True)]),
+        Grammar("m1", [Rule("S", Choice(Seq(Opt(Lit("ab")), Clo(Lit("c", ci=True)), Clo(Range("a", "z"), plus=True)),
+                                        Seq(Neg(Lit("x")), Pos(Seq(Lit("y"), Call("char"))), Inc("T")), Seq()), export=True),
+                       Rule("T", Seq(Call("char", "c"), Lit("\n\t\\'\"é\x7f", ci=False)))]),
+        Grammar("m2", [Rule("S", Seq(Call("K", "k"), Call("E", "e"), Call("X", "x")), export=True, checks=[chk("one"), chk("two")]),
+                       CharRule("K", [("range", "a", "f"), ("lit", "_"), ("ref", "K2")], checks=[chk("kc")]),
+                       CharRule("K2", [("lit", "é"), ("range", "0", "9")]),
+                       ExternRule("E", {"o": "unknown", "path": P + "ext", "ret": None, "nullable": True}),
+                       ExternRule("X", {"o": "unknown", "path": "crate::Point::parse", "ret": "crate::Point", "nullable": True})]),
+        Grammar("m3", [Rule("Whitespace", Clo(Choice(Lit(" "), Call("Comment"))), no_skip_ws=True),
+                       Rule("Comment", Seq(Lit("#"), Clo(Seq(Neg(Lit("\n")), Call("char"))), Lit("\n")), no_skip_ws=True),
+                       Rule("S", Seq(Neg(Seq(Call("I"), Eoi())), Clo(Seq(Call("I", "m"), Opt(Lit(","))), plus=True)), export=True),
+                       Rule("I", Clo(Choice(Range("0", "9"), Lit("_")), plus=True), string=True, no_skip_ws=True, position=True)]),
+        Grammar("m4", [Rule("S", Choice(Seq(Choice(Lit("a"), Lit("b")), Choice(Seq(Lit("c"), Lit("d")), Lit("e"))), Opt(Choice(Lit("f"), Seq()))),
+                            export=True)]),
+    ]
